@@ -12,7 +12,7 @@ from . import enga, solve
 from .enga import (Outcome, all_var_names, close, coeffs, exc_sig, flat_float, float_like, floats_of, model_env,
                    neq_any, pair, path_matches, rand_env, subst, sym_like)
 from .sym import (CS, CTX, Fr, S, Infeasible, PathLimit, Unsupported, complete_env, evalf, is_complex, leaves,
-                  structure, t_sub, toz, term_vars)
+                  structure, sym, sym_array, t_sub, toz, term_vars)
 
 SEED = int(os.environ.get("VERIF_SEED", "0") or 0)
 
@@ -41,7 +41,7 @@ def sym_body(cfg, want_vjp=True, want_jvp=False, complex_g=None):
     def body():
         dual = cfg.make_args(eps={k: {1: "d"}})
         try:
-            y = cfg.call(onp, *dual)
+            y = getattr(cfg, "oracle", cfg.call)(onp, *dual)
         except (Unsupported, Infeasible, PathLimit):
             raise
         except Exception as e:
@@ -88,6 +88,12 @@ def tangent_of(xd):
         return S(xd.co(1))
     if isinstance(xd, CS):
         return CS(S(xd.re.co(1)), S(xd.im.co(1)))
+    if isinstance(xd, dict):
+        return {k_: tangent_of(v_) for k_, v_ in xd.items()}
+    if isinstance(xd, (tuple, list)):
+        return type(xd)(tangent_of(v_) for v_ in xd)
+    if not isinstance(xd, onp.ndarray):
+        return xd * 0
     out = onp.empty(onp.shape(xd), dtype=object)
     for i in onp.ndindex(*onp.shape(xd)):
         out[i] = tangent_of(xd[i])
@@ -261,7 +267,7 @@ def float_dir_deriv(cfg, env, dname="d", h=1e-4, one_sided=0):
     def F(t):
         with warnings.catch_warnings():
             warnings.simplefilter("ignore")
-            return onp.array(flat_float(cfg.call(onp, *subst(fa, k, fa[k] + t * d))), dtype=float)
+            return onp.array(flat_float(getattr(cfg, "oracle", cfg.call)(onp, *subst(fa, k, enga.add_scaled(fa[k], d, t)))), dtype=float)
 
     if one_sided:
         s = one_sided
@@ -281,24 +287,10 @@ class NonSmooth(Exception):
 
 
 def _float_arg_like(cfg, k, env):
-    a = cfg.args[k]
-    nm = "x%d" % k
-    if a.kind == "r":
-        arr = onp.zeros(a.shape)
-        for idx in onp.ndindex(*a.shape):
-            arr[idx] = env.get(nm + "_" + "_".join(map(str, idx)) if idx else nm, 0.0)
-        return arr
-    if a.kind == "c":
-        arr = onp.zeros(a.shape, dtype=complex)
-        for idx in onp.ndindex(*a.shape):
-            s = nm + "_" + "_".join(map(str, idx)) if idx else nm
-            arr[idx] = complex(env.get(s + "r", 0.0), env.get(s + "i", 0.0))
-        return arr
-    if a.kind == "s":
-        return float(env.get(nm, 0.0))
-    if a.kind == "cs":
-        return complex(env.get(nm + "r", 0.0), env.get(nm + "i", 0.0))
-    raise ValueError
+    """float structure of argument k from an environment keyed by the argument's own variable names"""
+    from .enga import _build_float, _ZeroDefault
+
+    return _build_float(cfg.args[k], "x%d" % k, _ZeroDefault(env))
 
 
 def dvec(cfg, env, dname="d"):
@@ -382,7 +374,7 @@ def _validate(cfg, out, p, env, want_vjp, want_jvp):
     try:
         with warnings.catch_warnings():
             warnings.simplefilter("ignore")
-            yf = flat_float(cfg.call(onp, *cfg.float_args(env)))
+            yf = flat_float(getattr(cfg, "oracle", cfg.call)(onp, *cfg.float_args(env)))
         ys = floats_of(res["y"], env, 0)
         if not close(ys, yf, 1e-6, 1e-8):
             msgs.append("primal: symbolic %s vs float64 %s" % (ys[:4], yf[:4]))
@@ -491,7 +483,7 @@ def _numpy_float_raises(cfg):
     try:
         with warnings.catch_warnings():
             warnings.simplefilter("ignore")
-            cfg.call(onp, *cfg.float_args(env))
+            getattr(cfg, "oracle", cfg.call)(onp, *cfg.float_args(env))
         return False
     except Exception:
         return True
@@ -665,7 +657,7 @@ def replay_jvp(cfg, env, tol=1e-5):
         return False, "float64 run raised %s" % exc_sig(e)
     with warnings.catch_warnings():
         warnings.simplefilter("ignore")
-        y = cfg.call(onp, *cfg.float_args(env))
+        y = getattr(cfg, "oracle", cfg.call)(onp, *cfg.float_args(env))
     if structure(tan)[:2] != structure(y)[:2]:
         return True, "tangent structure %s != output structure %s" % (structure(tan), structure(y))
     try:
@@ -755,6 +747,10 @@ def kink_body(cfg):
 
 
 def _negate_dir(xd):
+    if isinstance(xd, dict):
+        return {k_: _negate_dir(v_) for k_, v_ in xd.items()}
+    if isinstance(xd, (tuple, list)):
+        return type(xd)(_negate_dir(v_) for v_ in xd)
     if isinstance(xd, S):
         return S({m: (t if m == 0 else (-t if type(t) is Fr else -t)) for m, t in xd.c.items()})
     out = onp.empty(onp.shape(xd), dtype=object)
@@ -1214,3 +1210,336 @@ def replay_structure(cfg, env, mode):
     except Exception as e:
         return False, "float64 run raised %s" % exc_sig(e)
     return have != want, "%s result structure %s, expected %s" % (mode, have, want)
+
+
+# ----------------------------------------------------------------------------------------------
+# C10-A: nothing un-owned is written; VJP / JVP functions are reusable
+
+
+def _freeze(a):
+    if isinstance(a, onp.ndarray):
+        a.flags.writeable = False
+    elif isinstance(a, (tuple, list)):
+        for e in a:
+            _freeze(e)
+    elif isinstance(a, dict):
+        for e in a.values():
+            _freeze(e)
+
+
+def _ids(a):
+    return [id(e) for e in leaves(a)]
+
+
+def check_reuse(cfg, tier="quick"):
+    from autograd import core
+
+    opts = tier_opts(tier)
+    out = Outcome(cfg)
+    t0 = time.time()
+    k = cfg.argnum
+    anp = enga.anp
+
+    def body():
+        plain = cfg.make_args()
+        for a in plain:
+            _freeze(a)
+        f = lambda x: cfg.call(anp, *subst(plain, k, x))
+        res = {"tag": "ok", "args": plain}
+        in_ids = [_ids(a) for a in plain if isinstance(a, onp.ndarray)]
+        try:
+            vjp, yv = core.make_vjp(f, plain[k])
+            g1, g2 = sym_like(yv, "g"), sym_like(yv, "h")
+            _freeze(g1)
+            _freeze(g2)
+            gi = (_ids(g1), _ids(g2))
+            r1 = vjp(g1)
+            r1_ids = _ids(r1)
+            r1_terms = coeffs(r1)
+            r2 = vjp(g2)
+            r3 = vjp(g1)
+            res.update(r1=r1, r2=r2, r3=r3, r1_terms=r1_terms, r1_same=(_ids(r1) == r1_ids), g_same=((_ids(g1), _ids(g2)) == gi))
+            res["r1_after"] = coeffs(r1)
+        except (Unsupported, Infeasible, PathLimit):
+            raise
+        except ValueError as e:
+            if "read-only" in str(e):
+                return {"tag": "write", "exc": e, "args": plain}
+            return {"tag": "raises", "exc": e, "args": plain}
+        except Exception as e:
+            return {"tag": "raises", "exc": e, "args": plain}
+        try:
+            jv = core.make_jvp(f, plain[k])
+            v1, v2 = sym_like(plain[k], "v"), sym_like(plain[k], "w")
+            _freeze(v1)
+            _freeze(v2)
+            t1 = jv(v1)[1]
+            t1_terms = coeffs(t1)
+            t2 = jv(v2)[1]
+            t3 = jv(v1)[1]
+            res.update(t1_terms=t1_terms, t1_after=coeffs(t1), t3=t3)
+        except (Unsupported, Infeasible, PathLimit):
+            raise
+        except ValueError as e:
+            if "read-only" in str(e):
+                return {"tag": "write", "exc": e, "args": plain}
+        except Exception:
+            pass
+        res["in_same"] = [_ids(a) for a in plain if isinstance(a, onp.ndarray)] == in_ids
+        return res
+
+    paths = explore_cfg(cfg, out, body, opts)
+    if paths is None:
+        out.time = time.time() - t0
+        return out
+    nok = 0
+    for p in paths:
+        if p.err is not None:
+            out.status, out.detail = "error", "harness: body raised %s" % exc_sig(p.err)
+            break
+        res = p.res
+        if res["tag"] == "raises":
+            out.detail = exc_sig(res["exc"])
+            continue
+        r, m = witness(p, out, opts)
+        if r == "unsat":
+            out.paths_dropped += 1
+            continue
+        if res["tag"] == "write":
+            out.status, out.detail = "violation", "differentiation tried to write into read-only (caller-owned) memory: %s" % exc_sig(res["exc"])
+            out.cex = {"env": {}, "mode": "reuse"}
+            break
+        nok += 1
+        if not (res["in_same"] and res["g_same"] and res["r1_same"]):
+            out.status, out.detail = "violation", "an input / cotangent / earlier result array had entries replaced (inputs %s, cotangents %s, earlier result %s)" % (res["in_same"], res["g_same"], res["r1_same"])
+            out.cex = {"env": {}, "mode": "reuse"}
+            break
+        eqs = list(zip(coeffs(res["r3"]), res["r1_terms"])) + list(zip(res["r1_after"], res["r1_terms"]))
+        if "t3" in res:
+            eqs += list(zip(coeffs(res["t3"]), res["t1_terms"])) + list(zip(res["t1_after"], res["t1_terms"]))
+        v, model = prove_eqs(p, eqs, [], out, opts)
+        if v == "unknown":
+            out.status, out.detail = "inconclusive", "solver unknown on reuse equality"
+            break
+        if v == "sat":
+            out.status, out.detail = "violation", "a repeated call of the VJP/JVP function returned a different answer, or an earlier result changed"
+            out.cex = {"env": {k_: float(v_) for k_, v_ in (model or {}).items() if "!" not in k_}, "mode": "reuse"}
+            break
+    if out.status is None:
+        out.status = "holds" if nok else "raises"
+        if nok:
+            out.validated += 1 if _float_reuse_ok(cfg) else 0
+    out.time = time.time() - t0
+    return out
+
+
+def _float_reuse_ok(cfg):
+    """the same protocol on float64 arrays with read-only flags (real memory semantics)"""
+    from autograd import core
+
+    rng = _rng(cfg)
+    env = _Default({}, rng)
+    anp = enga.anp
+    try:
+        fa = cfg.float_args(env)
+        for a in fa:
+            _freeze(a)
+        k = cfg.argnum
+        copies = [onp.array(a, copy=True) if isinstance(a, onp.ndarray) else a for a in fa]
+        with warnings.catch_warnings():
+            warnings.simplefilter("ignore")
+            vjp, yv = core.make_vjp(lambda x: cfg.call(anp, *subst(fa, k, x)), fa[k])
+            g1, g2 = float_like(yv, "g", env), float_like(yv, "h", env)
+            _freeze(g1)
+            g1c = onp.array(flat_float(g1))
+            r1 = vjp(g1)
+            r1c = onp.array(flat_float(r1))
+            vjp(g2)
+            r3 = vjp(g1)
+        ok = onp.array_equal(onp.array(flat_float(r3)), r1c) and onp.array_equal(onp.array(flat_float(r1)), r1c) and onp.array_equal(onp.array(flat_float(g1)), g1c)
+        for a, c in zip(fa, copies):
+            if isinstance(a, onp.ndarray):
+                ok = ok and onp.array_equal(a, c)
+        return bool(ok)
+    except Exception:
+        return False
+
+
+# ----------------------------------------------------------------------------------------------
+# C17-A: checkpoint(f) has the value and the reverse-mode derivatives (orders 1, 2) of f
+
+
+def check_checkpoint(cfg, tier="quick"):
+    from autograd import core
+    import autograd
+
+    opts = tier_opts(tier)
+    out = Outcome(cfg)
+    t0 = time.time()
+    k = cfg.argnum
+    anp = enga.anp
+
+    def body():
+        plain = cfg.make_args()
+        f = lambda x: cfg.call(anp, *subst(plain, k, x))
+        cf = autograd.checkpoint(f)
+        res = {"tag": "ok", "args": plain}
+        try:
+            vjp, yv = core.make_vjp(f, plain[k])
+            vjpc, yc = core.make_vjp(cf, plain[k])
+            g = sym_like(yv, "g")
+            res.update(y=yv, yc=yc, r=vjp(g), rc=vjpc(g))
+            # second order: vjp of (x -> <vjp_f(x)(g), u>) for both
+            u = sym_like(plain[k], "u")
+
+            def second(fun):
+                def inner(x):
+                    v, _ = core.make_vjp(fun, x)
+                    r = v(g)
+                    return anp.sum(r * u) if not isinstance(r, (tuple, list)) else sum(anp.sum(a * b) for a, b in zip(r, u))
+                v2, val = core.make_vjp(inner, plain[k])
+                return v2(1.0 if not isinstance(val, onp.ndarray) else onp.ones(onp.shape(val)))
+
+            res["h"] = second(f)
+            res["hc"] = second(cf)
+        except (Unsupported, Infeasible, PathLimit):
+            raise
+        except Exception as e:
+            return {"tag": "raises", "exc": e, "args": plain}
+        return res
+
+    paths = explore_cfg(cfg, out, body, opts)
+    if paths is None:
+        out.time = time.time() - t0
+        return out
+    nok = 0
+    for p in paths:
+        if p.err is not None:
+            out.status, out.detail = "error", "harness: body raised %s" % exc_sig(p.err)
+            break
+        res = p.res
+        if res["tag"] == "raises":
+            out.detail = exc_sig(res["exc"])
+            continue
+        r, m = witness(p, out, opts)
+        if r == "unsat":
+            out.paths_dropped += 1
+            continue
+        nok += 1
+        bad = None
+        for a, b, nm in ((res["y"], res["yc"], "value"), (res["r"], res["rc"], "first derivative"), (res["h"], res["hc"], "second derivative")):
+            if structure(a) != structure(b):
+                bad = nm + " structure"
+                break
+            v, model = prove_eqs(p, list(zip(coeffs(a), coeffs(b))), [], out, opts)
+            if v == "unknown":
+                out.status, out.detail = "inconclusive", "solver unknown on checkpoint %s" % nm
+                break
+            if v == "sat":
+                bad = nm
+                break
+        if out.status:
+            break
+        if bad:
+            out.status, out.detail = "violation", "checkpoint(f) differs from f in its %s" % bad
+            out.cex = {"env": {k_: float(v_) for k_, v_ in (model or {}).items() if "!" not in k_} if bad and 'model' in dir() and model else {}, "mode": "checkpoint"}
+            break
+    if out.status is None:
+        out.status = "holds" if nok else "raises"
+        if nok:
+            out.validated += 1
+    out.time = time.time() - t0
+    return out
+
+
+# ----------------------------------------------------------------------------------------------
+# C12-A: flatten / unflatten are mutually inverse linear maps that commute with grad
+
+
+def check_flatten(case, tier="quick"):
+    from autograd import core
+    import autograd
+    from autograd.misc.flatten import flatten
+    from .enga import Config
+
+    lab, spec, f = case
+    cfg = Config("flatten", "FLAT " + lab, lambda np, v: f(np, v), [spec], 0)
+    opts = tier_opts(tier)
+    out = Outcome(cfg)
+    t0 = time.time()
+    anp = enga.anp
+
+    def body():
+        v = cfg.make_args()[0]
+        try:
+            flat, unflatten = flatten(v)
+            back = unflatten(flat)
+            n = len(leaves(flat))
+            w = sym_array("w", (n,))
+            fw = flatten(unflatten(w))[0]
+            g_struct = autograd.grad(lambda z: f(anp, z))(v)
+            lhs = flatten(g_struct)[0]
+            rhs = autograd.grad(lambda fl: f(anp, unflatten(fl)))(flat)
+        except (Unsupported, Infeasible, PathLimit):
+            raise
+        except Exception as e:
+            return {"tag": "raised", "exc": e, "args": [v]}
+        return {"tag": "ok", "args": [v], "v": v, "flat": flat, "back": back, "w": w, "fw": fw, "lhs": lhs, "rhs": rhs}
+
+    paths = explore_cfg(cfg, out, body, opts)
+    if paths is None:
+        out.time = time.time() - t0
+        return out
+    for p in paths:
+        if p.err is not None:
+            out.status, out.detail = "error", "harness: body raised %s" % exc_sig(p.err)
+            break
+        res = p.res
+        if res["tag"] == "raised":
+            # does it also raise on float64 leaves?  (flatten is documented to work for any nesting of tuples/lists/dicts)
+            out.status, out.detail = "violation", "flatten / unflatten / grad through them raised %s" % exc_sig(res["exc"])
+            out.cex = {"env": {}, "mode": "flatten"}
+            break
+        checks = [("unflatten(flatten(v)) == v", res["back"], res["v"], True), ("flatten(unflatten(w)) == w", res["fw"], res["w"], False),
+                  ("grad(f o unflatten)(flatten v) == flatten(grad f(v))", res["rhs"], res["lhs"], False),
+                  ("flatten(v) lists the leaves in traversal order", res["flat"], _sorted_leaves(res["v"]), False)]
+        for nm, a, b, structural in checks:
+            if structural and structure(a) != structure(b):
+                out.status, out.detail = "violation", "%s fails structurally: %s vs %s" % (nm, structure(a), structure(b))
+                out.cex = {"env": {}, "mode": "flatten"}
+                break
+            ca, cb = coeffs(a), coeffs(b)
+            if len(ca) != len(cb):
+                out.status, out.detail = "violation", "%s fails: sizes %d vs %d" % (nm, len(ca), len(cb))
+                out.cex = {"env": {}, "mode": "flatten"}
+                break
+            v_, model = prove_eqs(p, list(zip(ca, cb)), [], out, opts)
+            if v_ == "unknown":
+                out.status, out.detail = "inconclusive", "solver unknown on %s" % nm
+                break
+            if v_ == "sat":
+                out.status, out.detail = "violation", "%s fails" % nm
+                out.cex = {"env": {k_: float(x_) for k_, x_ in (model or {}).items()}, "mode": "flatten"}
+                break
+        if out.status:
+            break
+    if out.status is None:
+        out.status = "holds"
+        out.validated += 1
+    out.time = time.time() - t0
+    return out
+
+
+def _sorted_leaves(v):
+    """reference traversal: tuples/lists in order, dicts by sorted key, arrays raveled in C order"""
+    if isinstance(v, dict):
+        o = []
+        for k_ in sorted(v):
+            o.extend(_sorted_leaves(v[k_]))
+        return o
+    if isinstance(v, (tuple, list)):
+        o = []
+        for e in v:
+            o.extend(_sorted_leaves(e))
+        return o
+    return list(onp.ravel(onp.asarray(v, dtype=object)))
